@@ -256,6 +256,11 @@ def len_sources(prog, body, op, depth=0):
                     cpath, caps = agg["closure"], agg["ops"]
         cb = prog.body(cpath) if cpath else None
         if cb is None:
+            # `map_or(0, Vec::len)` / `map(Vec::len)`: a len function item applied to the receiver's payload
+            fa = op_fn(clo_op)
+            if fa is not None and lib.tail(mir.fn_name(fa), 1) == "len" and recv_src is not None and \
+                    (t1 != "map_or" or (len(t["args"]) > 2 and lib.const_val(t["args"][1]) == 0)):
+                return [recv_src]
             return None
         return _closure_len(prog, cb, recv_src, body, caps)
     if t1 in ("len", "count"):
